@@ -24,7 +24,13 @@ fn pool() -> Vec<T> {
     let q1 = SimpleTerm::Triple(Box::new([v[0].clone(), v[1].clone(), v[8].clone()]));
     let q2 = SimpleTerm::Triple(Box::new([v[0].clone(), v[1].clone(), v[9].clone()]));
     let q3 = SimpleTerm::Triple(Box::new([v[3].clone(), v[1].clone(), q1.clone()]));
-    v.extend([q1, q2, q3]);
+    // same left-to-right atom sequence, different bracketing; a literal vs a quoted triple in the same position
+    let ba = v[3].clone();
+    let lit_o = v[5].clone();
+    let q4 = SimpleTerm::Triple(Box::new([ba.clone(), v[0].clone(), SimpleTerm::Triple(Box::new([ba.clone(), v[1].clone(), lit_o.clone()]))]));
+    let q5 = SimpleTerm::Triple(Box::new([SimpleTerm::Triple(Box::new([ba.clone(), v[0].clone(), ba.clone()])), v[1].clone(), lit_o.clone()]));
+    let q6 = SimpleTerm::Triple(Box::new([ba.clone(), v[0].clone(), lit_o.clone()]));
+    v.extend([q1, q2, q3, q4, q5, q6]);
     v
 }
 fn rank(t: &T) -> u8 { match t.kind() { TermKind::BlankNode => 0, TermKind::Iri => 1, TermKind::Literal => 2, TermKind::Triple => 3, TermKind::Variable => 4 } }
@@ -102,6 +108,12 @@ fn main() {
         if (c == Ordering::Equal) != eq { fail(format!("cmp == Equal but not eq (or conversely): {:?} {:?}", a, b)); }
         if Term::cmp(b, a) != c.reverse() { fail(format!("cmp not antisymmetric: {:?} {:?}", a, b)); }
         if rank(a) != rank(b) && c != rank(a).cmp(&rank(b)) { fail(format!("kind order violated: {:?} {:?}", a, b)); }
+        if let (SimpleTerm::Triple(ta), SimpleTerm::Triple(tb)) = (a, b) {
+            // quoted triples: the first differing component decides, with the same order on components
+            let mut want = Ordering::Equal;
+            for i in 0..3 { let o = Term::cmp(&ta[i], &tb[i]); if o != Ordering::Equal { want = o; break; } }
+            if c != want { fail(format!("quoted triples are not ordered component-wise: {:?} {:?}: {:?}, components say {:?}", a, b, c, want)); }
+        }
         if eq && h(a) != h(b) { fail(format!("equal terms hash differently: {:?} {:?}", a, b)); }
         let copy: T = a.into_term();
         if !Term::eq(&copy, a) || h(&copy) != h(a) { fail(format!("copy is not equal to the original: {:?}", a)); }
